@@ -269,10 +269,12 @@ Section Local.
   Hypothesis CInv_mono : forall used used' c,
     (forall x, In x used -> In x used') -> CInv used c -> CInv used' c.
   (* C02: the per-record memo only saves work *)
-  Hypothesis eval_cache_transparent : forall c s w,
-    fst (eval true c s w) = fst (eval false c s w).
+  Hypothesis eval_cache_transparent : forall s w,
+    content_stable_per_id s -> NoDup (w_ids w) ->
+    fst (eval true c0 s w) = fst (eval false c0 s w).
   (* C02: node IDs are only compared for equality *)
   Hypothesis eval_id_renaming : forall (f : N -> N) m s w,
+    content_stable_per_id s -> NoDup (w_ids w) ->
     (forall x y, In x (w_ids w) -> In y (w_ids w) -> f x = f y -> x = y) ->
     fst (eval m c0 s (w_rename f w)) = fst (eval m c0 s w).
   (* C13 cache ingredients at evaluator level (expr_cache_pure, js_isolation, node_json_fresh):
@@ -280,6 +282,7 @@ Section Local.
      the invariant is kept, the record's IDs now counting as used *)
   Hypothesis eval_caches_sound : forall used c m s w,
     CInv used c -> (forall i, In i (w_rec_ids w) -> ~ In i used) -> content_stable_per_id s ->
+    NoDup (w_ids w) ->
     fst (eval m c s w) = fst (eval m c0 s w) /\ CInv (w_rec_ids w ++ used) (snd (eval m c s w)).
 
   Notation run_units_st := (run_units_st schema V C eval marshal marshal_err_cont H canon).
@@ -300,11 +303,11 @@ Section Local.
   Proof.
     intros Hc Hg Hfresh Hnd Hlc Hli.
     set (w := mkW root ctx cids t ids).
-    destruct (eval_caches_sound used c memo s w Hc Hfresh Hg) as [E1 Hc1].
+    destruct (eval_caches_sound used c memo s w Hc Hfresh Hg Hnd) as [E1 Hc1].
     split; [|exact Hc1].
     rewrite E1.
     assert (E2 : fst (eval memo c0 s w) = fst (eval false c0 s w)).
-    { destruct memo; [apply eval_cache_transparent|reflexivity]. }
+    { destruct memo; [apply eval_cache_transparent; assumption|reflexivity]. }
     rewrite E2.
     destruct (rename_exists (w_ids (canon_world ctx t)) (w_ids w)) as (f & Hm & Hinj).
     - unfold w_ids, canon_world, w; simpl. rewrite !app_length, !map_length, !seq_length. lia.
@@ -316,7 +319,7 @@ Section Local.
         apply app_eq_length in Hrest as [Hcs Hrs].
         - unfold w_rename, w; simpl. rewrite Hr, Hcs, Hrs. reflexivity.
         - rewrite !map_length, seq_length. lia. }
-      rewrite Ew. apply eval_id_renaming. exact Hinj.
+      rewrite Ew. apply eval_id_renaming; [exact Hg|apply canon_world_NoDup|exact Hinj].
   Qed.
 
   (* record_local: the loop started in ANY consistent hidden state yields [results], and leaves
